@@ -140,14 +140,15 @@ Proof.
 Qed.
 
 Lemma routing_key_by_name_lemma cc cols pk vals keyvals :
-  cc <> 0 -> length vals = length cols ->
+  cc <> 0 -> cols <> [] -> length vals = length cols ->
   map (fun n => bound_value n cols vals) pk = map Some keyvals ->
   Forall short_comp keyvals ->
   get_routing_key None false cc cols [] false (Some pk) (map MOk vals) (Z.of_nat (length cols))
   = RKOk (partition_key keyvals).
 Proof.
-  intros Hcc Hl Hb Hs. unfold get_routing_key, routing_info.
-  replace (cc =? 0) with false by lia.
+  intros Hcc Hcols Hl Hb Hs. unfold get_routing_key, routing_info.
+  replace ((cc =? 0) || (Z.of_nat (length cols) =? 0)) with false
+    by (destruct cols; [congruence|cbn [length]; lia]).
   destruct (match_pk_bound cols vals Hl pk keyvals Hb) as (idx & Hm & Hr & Hsn & Hc).
   rewrite Hm, Hc. rewrite create_routing_key_layout; [rewrite Hsn; reflexivity|assumption|].
   rewrite <- Hsn in Hs. rewrite Forall_map in Hs. exact Hs.
@@ -159,7 +160,7 @@ Lemma routing_key_missing_lemma cc cols pk vals per nvalues :
   get_routing_key None false cc cols [] false (Some pk) per nvalues = RKNil.
 Proof.
   intros Hcc Hl (n & Hin & Hn). unfold get_routing_key, routing_info.
-  replace (cc =? 0) with false by lia.
+  destruct ((cc =? 0) || (Z.of_nat (length cols) =? 0)); [reflexivity|].
   assert (Hm : match_pk pk cols = None).
   { induction pk as [|k pk IH]; [contradiction|]. cbn [match_pk].
     pose proof (find_name_bound k cols vals 0 Hl ltac:(lia)) as Hf.
@@ -177,8 +178,10 @@ Lemma routing_key_v4_lemma cc cols pkey ks0 tpk vals :
   = RKOk (partition_key (map (fun i => nth (Z.to_nat i) vals []) pkey)).
 Proof.
   intros Hcc Hne Hl Hr Hs. unfold get_routing_key, routing_info.
-  replace (cc =? 0) with false by lia.
-  destruct pkey as [|p0 pkey']; [congruence|]. set (pkey := p0 :: pkey') in *.
+  destruct pkey as [|p0 pkey']; [congruence|].
+  assert (Hp0 : 0 <= p0 < Z.of_nat (length cols)) by (apply Forall_cons_iff in Hr; apply Hr).
+  replace ((cc =? 0) || (Z.of_nat (length cols) =? 0)) with false by lia.
+  set (pkey := p0 :: pkey') in *.
   assert (Hall : forallb (fun c => (0 <=? c) && (c <? Z.of_nat (length cols))) pkey = true).
   { apply forallb_forall. intros x Hx. rewrite Forall_forall in Hr. specialize (Hr x Hx). lia. }
   rewrite Hall.
@@ -192,6 +195,21 @@ Proof.
   rewrite E1, create_routing_key_layout, E2; [reflexivity| |].
   - unfold comps. apply Forall_map. cbn [fst]. exact Hr.
   - unfold comps. apply Forall_map. cbn [snd]. exact Hs.
+Qed.
+
+(* a partition-key index outside the bind columns (a malformed PREPARED response): an error, for every
+   statement shape and whatever is bound *)
+Lemma routing_key_bad_index_lemma cc cols pkey ks0 tpk per nvalues :
+  cc <> 0 -> cols <> [] ->
+  (exists i, In i pkey /\ ~ (0 <= i < Z.of_nat (length cols))) ->
+  get_routing_key None false cc cols pkey ks0 tpk per nvalues = RKErr.
+Proof.
+  intros Hcc Hcols (i & Hin & Hbad). unfold get_routing_key, routing_info.
+  replace ((cc =? 0) || (Z.of_nat (length cols) =? 0)) with false
+    by (destruct cols; [congruence|cbn [length]; lia]).
+  destruct pkey as [|p0 pkey']; [contradiction|]. set (pkey := p0 :: pkey') in *.
+  destruct (forallb (fun c => (0 <=? c) && (c <? Z.of_nat (length cols))) pkey) eqn:E; [|reflexivity].
+  rewrite forallb_forall in E. specialize (E i Hin). lia.
 Qed.
 
 (* ---- one handle, several calls ------------------------------------------------------------------------- *)
